@@ -9,11 +9,23 @@ from jaxtyping import Float
 from torch import Tensor
 
 from linear_operator.operators._linear_operator import IndexType, LinearOperator
+from linear_operator.operators.linear_operator_representation_tree import LinearOperatorRepresentationTree
 
 from linear_operator.utils.broadcasting import _matmul_broadcast_shape
 from linear_operator.utils.generic import _to_helper
 from linear_operator.utils.getitem import _compute_getitem_size
 from linear_operator.utils.memoize import cached
+
+
+class _ZeroRepresentationTree(LinearOperatorRepresentationTree):
+    def __init__(self, linear_op):
+        self._cls = linear_op.__class__
+        self._sizes = tuple(linear_op.sizes)
+        self._kwargs = {"dtype": linear_op._dtype, "device": linear_op._device}
+        self.children = []
+
+    def __call__(self, *flattened_representation):
+        return self._cls(*self._sizes, **self._kwargs)
 
 
 class ZeroLinearOperator(LinearOperator):
@@ -36,6 +48,13 @@ class ZeroLinearOperator(LinearOperator):
 
         self._dtype = dtype
         self._device = device
+
+    def representation(self) -> Tuple[torch.Tensor, ...]:
+        # (the sizes are not tensors: a zero operator has an empty representation, and is rebuilt from its sizes)
+        return ()
+
+    def representation_tree(self) -> LinearOperatorRepresentationTree:
+        return _ZeroRepresentationTree(self)
 
     @property
     def dtype(self) -> Optional[torch.dtype]:
